@@ -121,6 +121,15 @@ func (r *mvRun) listRemove(k int) {
 	}
 }
 
+// stuck: a garbage list that collectDead announced was not taken (or not finished) by any collection worker within
+// the gate's 30 s although the workers are idle -- a fact about the real code (stranded garbage), logged as an event.
+// The instance is abandoned like a hung one.
+func (r *mvRun) stuck(err error) bool {
+	r.t.Emit(tr.Ev{"e": "Stuck", "msg": err.Error(), "lastgc": int(r.d.GetLastGCSn())})
+	r.failed = "HANG"
+	return false
+}
+
 // shutdown closes the instance and reports what the allocator has to say afterwards (user-managed memory only).
 func (r *mvRun) shutdown() {
 	guarded(r.t, func() {
@@ -221,8 +230,7 @@ func (r *mvRun) exec(op []interface{}) bool {
 		r.handles[sn]--
 		picked, err := d.Picked()
 		if err != nil {
-			r.failed = err.Error()
-			return false
+			return r.stuck(err)
 		}
 		r.emit(tr.Ev{"e": "CloseSnap", "sn": sn, "picked": picked}, true)
 	case "CloseAll":
@@ -245,8 +253,7 @@ func (r *mvRun) exec(op []interface{}) bool {
 		d.GC()
 		picked, err := d.Picked()
 		if err != nil {
-			r.failed = err.Error()
-			return false
+			return r.stuck(err)
 		}
 		r.emit(tr.Ev{"e": "GC", "picked": picked}, true)
 	case "GCUnlink":
@@ -257,8 +264,7 @@ func (r *mvRun) exec(op []interface{}) bool {
 		}
 		picked, err := d.Picked()
 		if err != nil {
-			r.failed = err.Error()
-			return false
+			return r.stuck(err)
 		}
 		r.emit(tr.Ev{"e": "GCUnlink", "sn": sn, "skipped": false, "picked": picked}, true)
 	case "IterNew":
@@ -320,8 +326,7 @@ func (r *mvRun) exec(op []interface{}) bool {
 		x.open = false
 		picked, err := d.Picked()
 		if err != nil {
-			r.failed = err.Error()
-			return false
+			return r.stuck(err)
 		}
 		r.emit(tr.Ev{"e": "IterClose", "i": i, "picked": picked}, true)
 	case "Visit":
@@ -517,8 +522,7 @@ func (r *mvRun) drainPicked() bool {
 	for {
 		picked, err := r.d.Picked()
 		if err != nil {
-			r.failed = err.Error()
-			return false
+			return r.stuck(err)
 		}
 		if len(picked) == 0 {
 			return true
